@@ -13,7 +13,7 @@ import (
 // far). The obligation is contract-level: it is pinned by name in the golden list, so an
 // anchor line that disappears is reported.
 func (x *Exec) checkAsserts(fr *Frame, b *ssa.BasicBlock, st *State, ins ssa.Instruction) {
-	if !fr.top || x.contract == nil || len(x.contract.Asserts) == 0 || !ins.Pos().IsValid() {
+	if !fr.top || x.contract == nil || len(x.contract.Asserts)+len(x.contract.Binds) == 0 || !ins.Pos().IsValid() {
 		return
 	}
 	if _, isDbg := ins.(*ssa.DebugRef); isDbg {
@@ -21,6 +21,31 @@ func (x *Exec) checkAsserts(fr *Frame, b *ssa.BasicBlock, st *State, ins ssa.Ins
 	}
 	line := x.lineText(ins.Pos())
 	pos := x.P.Prog.Fset.Position(ins.Pos())
+	for k, bd := range x.contract.Binds {
+		if strings.HasPrefix(bd.At, "after ") || !strings.Contains(line, bd.At) {
+			continue
+		}
+		key := fmt.Sprintf("bind%d@%s:%d@%p", k, pos.Filename, pos.Line, b)
+		if x.assertSeen == nil {
+			x.assertSeen = map[string]bool{}
+		}
+		if x.assertSeen[key] {
+			continue
+		}
+		x.assertSeen[key] = true
+		if occ := x.count("bind-at#" + bd.Name); bd.AtN != 0 && occ != bd.AtN {
+			continue
+		}
+		env := x.envAt(fr, b, st)
+		saved := x.lookupAtEnd
+		x.lookupAtEnd = true
+		v := x.evalVal(env, bd.E)
+		x.lookupAtEnd = saved
+		if v.T.S != "" {
+			v.T = x.declareEq("ghost_"+bd.Name, v.T)
+		}
+		x.ghost[bd.Name] = v
+	}
 	for k, as := range x.contract.Asserts {
 		if !strings.Contains(line, as.At) {
 			continue
@@ -55,5 +80,59 @@ func (x *Exec) checkAsserts(fr *Frame, b *ssa.BasicBlock, st *State, ins ssa.Ins
 		name := fmt.Sprintf("at#%s@[%s]", label, txt)
 		name = fmt.Sprintf("%s#%d", name, x.count(name))
 		x.oblige("assert-at", name, st.Guard, t, "assertion at a program point: "+as.Text, ins.Pos(), false)
+	}
+}
+
+// checkBindsAfter handles "bind [G @ after <snippet>] e": the value e has once the last
+// instruction of that source line (in this block, before the block's terminator) has run.
+func (x *Exec) checkBindsAfter(fr *Frame, b *ssa.BasicBlock, st *State, idx int) {
+	if !fr.top || x.contract == nil || len(x.contract.Binds) == 0 {
+		return
+	}
+	ins := b.Instrs[idx]
+	if !ins.Pos().IsValid() {
+		return
+	}
+	if _, isDbg := ins.(*ssa.DebugRef); isDbg {
+		return
+	}
+	line := x.lineText(ins.Pos())
+	pos := x.P.Prog.Fset.Position(ins.Pos())
+	// is this the last value-producing instruction of the line in this block?
+	for j := idx + 1; j < len(b.Instrs); j++ {
+		nx := b.Instrs[j]
+		if _, isDbg := nx.(*ssa.DebugRef); isDbg {
+			continue
+		}
+		switch nx.(type) {
+		case *ssa.If, *ssa.Jump, *ssa.Return:
+			continue
+		}
+		if nx.Pos().IsValid() && x.P.Prog.Fset.Position(nx.Pos()).Line == pos.Line {
+			return // more to come on this line
+		}
+		break
+	}
+	for k, bd := range x.contract.Binds {
+		if !strings.HasPrefix(bd.At, "after ") || !strings.Contains(line, strings.TrimPrefix(bd.At, "after ")) {
+			continue
+		}
+		key := fmt.Sprintf("bindafter%d@%s:%d@%p", k, pos.Filename, pos.Line, b)
+		if x.assertSeen == nil {
+			x.assertSeen = map[string]bool{}
+		}
+		if x.assertSeen[key] {
+			continue
+		}
+		x.assertSeen[key] = true
+		env := x.envAt(fr, b, st)
+		saved := x.lookupAtEnd
+		x.lookupAtEnd = true
+		v := x.evalVal(env, bd.E)
+		x.lookupAtEnd = saved
+		if v.T.S != "" {
+			v.T = x.declareEq("ghost_"+bd.Name, v.T)
+		}
+		x.ghost[bd.Name] = v
 	}
 }
